@@ -26,6 +26,7 @@ ClsOf(e) == IF "i" \in DOMAIN e.act THEN (IF e.act.name = "Merge" THEN e.post.sr
 RepOf(e) == IF "rep" \in DOMAIN e.act THEN e.act.rep
             ELSE IF "kind" \in DOMAIN e.act THEN e.act.kind
             ELSE IF "op" \in DOMAIN e.act THEN e.act.op
+            ELSE IF "via" \in DOMAIN e.act THEN e.act.via
             ELSE IF e.pre.sens.on THEN "sensor"
             ELSE IF \E s \in 1..Len(e.pre.srcs) : e.pre.srcs[s].rep \notin {"", "ctor"}
                  THEN e.pre.srcs[CHOOSE s \in 1..Len(e.pre.srcs) : e.pre.srcs[s].rep \notin {"", "ctor"}].rep
